@@ -26,7 +26,8 @@ case "position":
     }
     d.lastPosition = line
 ```
-with `args = strings.Split(strings.TrimSpace(line), " ")[1:]`.
+with `args = strings.Split(strings.TrimSpace(line), " ")[1:]`. Note the two tokenisers: the new-position path splits
+at single blanks (`strings.Split`), the extension path at runs of Unicode white space (`strings.Fields`, `UciSeq.fields`).
 -/
 namespace Morlock.Model.UciPos
 open Morlock.Model Morlock.Model.UciSeq
@@ -93,8 +94,10 @@ def newgame (st : E × List Char) : E × List Char := (st.1, [])
 
 /-! ## What a well-formed `position` line means -/
 
-/-- A word: non-empty and free of spaces. -/
-def Word (w : List Char) : Prop := w ≠ [] ∧ ' ' ∉ w
+/-- A word: non-empty and free of white space — in the sense of `unicode.IsSpace` (`Fen.isSpace`), which is
+    what `strings.Fields` (the extension path) splits at; the blank, at which `strings.Split(_, " ")` (the
+    new-position path) splits, is one of them. -/
+def Word (w : List Char) : Prop := w ≠ [] ∧ ∀ c ∈ w, Fen.isSpace c = false
 
 /-- The content of a well-formed line: `fen = none` is `startpos`; `moves = []` means no `moves` part. -/
 structure Cmd where
